@@ -120,10 +120,10 @@ pub fn stages_for(prop: &str, tier: Tier) -> Option<Vec<Stage>> {
     let q = tier == Tier::Quick;
     let st = |world: &'static str, quick: u64, thorough: u64| Stage { world, runs: runs_override(if q { quick } else { thorough }), sweep: false };
     Some(match prop {
-        "C13" => vec![st("parser", 4_000_000, 200_000_000)],
-        "C14" => vec![st("parser", 4_000_000, 200_000_000)],
+        "C13" => vec![sw("parser"), st("parser", 4_000_000, 200_000_000)],
+        "C14" => vec![sw("parser"), st("parser", 4_000_000, 200_000_000)],
         "C01" => vec![
-            sw("splits"), sw("chars"), sw("slices_u8"), sw("slices_zst"), sw("slices_big"), sw("slices_odd"), sw("ranges_char"), sw("ranges_u8"), sw("ranges_i128"),
+            sw("parser"), sw("splits"), sw("chars"), sw("slices_u8"), sw("slices_zst"), sw("slices_big"), sw("slices_odd"), sw("ranges_char"), sw("ranges_u8"), sw("ranges_i128"),
             st("parser", 400_000, 8_000_000),
             st("splits", 600_000, 12_000_000),
             st("chars", 400_000, 8_000_000),
@@ -308,7 +308,7 @@ pub fn extra_stages(prop: &str, tier: Tier, seed: u64, _scratch: &Path) -> Extra
         Segment { world: "byvalue", from: 0, to: sweep_len - n_destr, sweep: true, stride, offset: seed % stride },
         Segment { world: "byvalue", from: sweep_len - n_destr, to: sweep_len, sweep: true, stride: 1, offset: 0 },
         // exhaustion sweeps of the iterator worlds (a seed-chosen fraction in quick, all cells in thorough)
-        swseg("slices_u8", 4), swseg("slices_odd", 12), swseg("slices_big", 12), swseg("chars", 2), swseg("splits", 4),
+        swseg("parser", 12), swseg("slices_u8", 4), swseg("slices_odd", 12), swseg("slices_big", 12), swseg("chars", 2), swseg("splits", 4),
         swseg("ranges_char", 16), swseg("ranges_u8", 32), swseg("ranges_i128", 32),
         seg("byvalue", 64),
         seg("parser", 32),
